@@ -11,6 +11,7 @@ import (
 
 	"github.com/relex/gotils/logger"
 	"github.com/relex/slog-agent/base"
+	"github.com/relex/slog-agent/defs"
 
 	"verifharness/fnutil"
 	"verifharness/vmetrics"
@@ -24,6 +25,9 @@ func LabelsMain(args []string) int {
 	var work *string
 	o := fnutil.Open("lb", args, func(fs *flag.FlagSet) { work = fs.String("work", "", "scratch dir") })
 	logger.SetLogLevel(logger.FatalLevel)
+	// every record lives in a pooled backing buffer that is recycled at its release (production: records over 1024 bytes), so
+	// metric key values that are kept as views into a record's buffer show up as counts booked on another record's values
+	defs.InputLogMinRecordBytesToPool = 8
 	root := filepath.Join(*work, fmt.Sprintf("lb-%d", o.Shard))
 	_ = os.RemoveAll(root)
 	_ = os.MkdirAll(root, 0o755)
